@@ -817,6 +817,13 @@ class Evaluator:
                         return ("bool", False)
             if a[0] == b[0] and a[0] in ("str", "bool", "variant") and op in ("Eq", "Ne"):
                 return ("bool", (a[1] == b[1]) == (op == "Eq"))
+            if op in ("Eq", "Ne") and {a[0], b[0]} <= {"some", "none"}:
+                # `self.peek() == Some(token)`: Option equality is equality of presence, then of the payloads
+                if a[0] != b[0]:
+                    return ("bool", op == "Ne")
+                if a[0] == "none":
+                    return ("bool", op == "Eq")
+                return self._binary(op, a[1], b[1])
         if a is not None and not is_form(a) and a[0] == "bool" and b is None:
             if op in ("And", "BitAnd") and not a[1]:
                 return ("bool", False)
